@@ -19,9 +19,12 @@ LEVEL = ('decides the plumbing a proof depends on: every reason that is used is 
          'log_inference are the complete explanation, with no selecting adaptor in between (P10); a '
          'tagged batch of root propagations starts at a trail length read after the previous '
          'propagator finished (P11). root-level antecedents skipped by conflict analysis or '
-         'minimisation are explained to the proof (P12). Does not decide that a logged inference '
-         'follows from its constraint or that a nogood is derivable — that needs a proof checker and '
-         'runs')
+         'minimisation are explained to the proof (P12). The initial-domain mark and the comparison in'
+         ' is_initial_bound agree on which trail entries need no explanation (P13 TABLE); the '
+         'constraint tag given to post / implied_by reaches every posting call (P14 TAINT); the '
+         'optimality conclusion is stated on the scaled objective (P15 = C04-O9). Does not decide that'
+         ' a logged inference follows from its constraint or that a nogood is derivable — that needs a'
+         ' proof checker and runs')
 TECHNIQUE = "static analysis: must-pass, typestate with a proof-completed bit, table recovery, populate/lookup guard agreement over rustc MIR"
 
 PROOF_DONE = 4     # bit of the X component: complete_proof / finalize_proof + empty nogood logged
